@@ -243,6 +243,31 @@ def sector_bond_cap(model, qntot, kind):
     return caps
 
 
+def chain_exactness(obj, kind):
+    """-> (tangent_full, splitting_exact) for a chain state, see simlab/ref/exactness.py"""
+    from simlab.ref import exactness
+    model = obj.model
+    n = len(model.basis)
+    if obj.qn is None:
+        qs_, qntot = 1, np.zeros(1, dtype=int)
+        rows = [np.zeros((b.nbas, 1), dtype=int) for b in model.basis]
+        labels = [np.zeros((bd, 1), dtype=int) for bd in obj.bond_dims]
+    else:
+        qntot = np.asarray(obj.qntot).reshape(-1)
+        qs_ = len(qntot)
+        rows = [np.asarray(b.sigmaqn).reshape(b.nbas, qs_) for b in model.basis]
+        labels = []
+        for k in range(n + 1):
+            lab = np.asarray(obj.qn[k]).reshape(-1, qs_)
+            if k > obj.qnidx:
+                lab = qntot.reshape(1, -1) - lab
+            labels.append(lab)
+    if kind == "mpdm":
+        rows = [np.repeat(r, r.shape[0], axis=0) for r in rows]
+    bonds = [(set(range(k)), labels[k], rows[:k], rows[k:]) for k in range(1, n)]
+    return exactness.splitting_exact(n, bonds, qntot)
+
+
 def full_rank_in_sector(obj, kind):
     """True iff every bond of the state carries, in EVERY charge sector, as many basis states as the sector allows
     (then the TDVP tangent space is the whole symmetry sector and the projector splitting is exact)."""
@@ -395,6 +420,10 @@ def op_evolve(w, s):
     src = e.obj
     e.meta["bonds_before"] = list(src.bond_dims)
     full_rank_input = full_rank_in_sector(src, e.kind)
+    split_exact = None
+    if method in ("ps", "ps2"):
+        # the splitting integrators need bonds exactly at the sector caps; they are exact only with a centre (ref/exactness.py)
+        full_rank_input, split_exact = chain_exactness(src, e.kind)
     illcond = False
     if method in ("vmf", "mu_vmf", "mu_cmf"):
         # the regularised inverse (reg_epsilon) freezes directions whose Schmidt weight is far below sqrt(reg_epsilon):
@@ -532,9 +561,9 @@ def op_evolve(w, s):
                 raise V({pid_main}, "evolve.layer1", f"evolve {method} ({c.get('rk_solver', c.get('taylor_order'))}, td={tdh is not None}, x={x:.3g}): result differs from a dense "
                                                      f"stepper using the library's own coefficients by {e1:.3e}", sig=f"evolve.layer1:{method}")
     if judged:
-        bound, why = scheme_bound(c, ec, x, method, imag, e.kind)
+        bound, why = scheme_bound(c, ec, x, method, imag, e.kind, split_exact)
         if bound is not None:
-            r = w.stats.ratio("evolve.layer2:" + key, err, bound)
+            r = w.stats.ratio("evolve.layer2:" + key + ("" if split_exact is None else ":exact" if split_exact else ":order"), err, bound)
             if err > bound and not CALIBRATE:
                 raise V({pid_main}, "evolve.layer2", f"evolve {key} x=||H||dt={x:.4g}: error vs exact propagator {err:.3e} > bound {bound:.3e} ({why}); cfg={c}",
                         sig=f"evolve.layer2:{method}:{'imag' if imag else 'real'}:{c.get('ivp_solver') if tdvp else ''}:{'ad' if c.get('adaptive') else 'fx'}")
@@ -558,7 +587,7 @@ def op_evolve(w, s):
     # ---- pairwise oracles on the same input
     pair = s.get("pair")
     if pair and sufficient and not carried and not illcond:
-        _pairwise(w, s, pair, e, eh, c, dt, bond_m, got, x, hn, imag, pid_main, tdh is not None)
+        _pairwise(w, s, pair, e, eh, c, dt, bond_m, got, x, hn, imag, pid_main, tdh is not None, split_exact)
     return "done"
 
 
@@ -587,7 +616,10 @@ def _check_td_times(w, tdh, method, ec, dt, c):
     w.stats.probes["td_sample_times_checked"] += 1
 
 
-def scheme_bound(c, ec, x, method, imag, kind):
+PS_ORDER_CONST = 0.25   # second-order splitting away from the exactness condition: error <= 0.25 x^3 (calibrated, >10x margin)
+
+
+def scheme_bound(c, ec, x, method, imag, kind, split_exact=True):
     """Allowed relative error vs the exact propagator for one call with x = ||H|| |dt| in [0.02, 0.5]."""
     floor = 2e-9
     if c.get("adaptive"):
@@ -597,9 +629,10 @@ def scheme_bound(c, ec, x, method, imag, kind):
         p = scheme_order(c, ec)
         return 6.0 * x ** (p + 1) / math.factorial(p + 1) + floor, f"6 x^{p + 1}/{p + 1}!"
     if method in ("ps", "ps2"):
+        extra = 0.0 if split_exact else PS_ORDER_CONST * x ** 3
         if c.get("ivp_solver", "krylov") == "krylov":
-            return 1e-8, "projector splitting at exact ranks with Krylov local solver"
-        return 20 * c.get("ivp_rtol", 1e-5) * max(x, 0.05) + 20 * c.get("ivp_atol", 1e-8) + 1e-8, "20*ivp_rtol*x"
+            return 1e-8 + extra, "projector splitting at exact ranks with Krylov local solver" + ("" if split_exact else " (no exactness centre: 0.25 x^3)")
+        return 20 * c.get("ivp_rtol", 1e-5) * max(x, 0.05) + 20 * c.get("ivp_atol", 1e-8) + 1e-8 + extra, "20*ivp_rtol*x" + ("" if split_exact else " + 0.25 x^3")
     if method in ("vmf", "mu_vmf"):
         return 20 * c.get("ivp_rtol", 1e-5) * max(x, 0.05) + 20 * c.get("ivp_atol", 1e-8) + 3 * math.sqrt(c.get("reg_epsilon", 1e-10)), "20*ivp_rtol*x + 3*sqrt(reg_epsilon)"
     if method == "mu_cmf":
@@ -609,7 +642,7 @@ def scheme_bound(c, ec, x, method, imag, kind):
     return None, ""
 
 
-def _pairwise(w, s, pair, e, eh, c, dt, bond_m, got, x, hn, imag, pid_main, td):
+def _pairwise(w, s, pair, e, eh, c, dt, bond_m, got, x, hn, imag, pid_main, td, split_exact=True):
     kind = pair["kind"]
     src = e.obj
     method = c["method"]
@@ -639,7 +672,7 @@ def _pairwise(w, s, pair, e, eh, c, dt, bond_m, got, x, hn, imag, pid_main, td):
         c2["taylor_order"] = None
         other = dense.dense_of(do_evolve(w, src, eh.obj, c2, dt, bond_m, normalize=s.get("normalize", True)))
         d = float(np.linalg.norm((other - got).ravel())) / gn
-        bound, _ = scheme_bound(c, make_config(c), x, method, imag, e.kind)
+        bound, _ = scheme_bound(c, make_config(c), x, method, imag, e.kind, split_exact)
         tol = 20 * c2.get("adaptive_rtol", 5e-4) + (bound or 0)
         w.stats.ratio(f"evolve.pair.adaptive:{method}", d, tol)
         if d > tol and X_LO <= x <= X_HI and not CALIBRATE:
@@ -649,7 +682,7 @@ def _pairwise(w, s, pair, e, eh, c, dt, bond_m, got, x, hn, imag, pid_main, td):
         half = do_evolve(w, src, eh.obj, c, dt / 2, bond_m, normalize=s.get("normalize", True))
         two = dense.dense_of(do_evolve(w, half, eh.obj, c, dt / 2, bond_m, normalize=s.get("normalize", True)))
         d = float(np.linalg.norm((two - got).ravel())) / gn
-        bound, _ = scheme_bound(c, make_config(c), x, method, imag, e.kind)
+        bound, _ = scheme_bound(c, make_config(c), x, method, imag, e.kind, split_exact)
         if bound is not None and X_LO <= x <= X_HI:
             w.stats.ratio(f"evolve.pair.split:{method}", d, 2 * bound)
             if d > 2 * bound and not CALIBRATE:
